@@ -189,3 +189,59 @@ func runWedge(id string, parts []string) string {
 	env.TakeQueries(key)
 	return fmt.Sprintf("bad=%s st=%s n=%d", badSt, st, len(resps))
 }
+
+// cachedseq: <id> cfg=<cfgspec with C=..> steps=<l>/<client>/<qhex>/<gap_ms>[;..] up=reply:<hex>
+//   All steps ask the SAME question (ids, EDNS and clients may differ).  The steps run in order, each after its gap;
+//   the first is a cache miss, later ones are hits (and trigger a prefetch when they fall into the last quarter of
+//   the entry's lifetime).  Result: n=<steps> r1=<hex|-> .. upq=<idx>:<hex from offset 2>|.. in ARRIVAL order (the
+//   prefetch's query included), so that the C12 oracles (OPT of every response, OPT/ECS of every upstream query) can be
+//   evaluated by the model runner on a cached / prefetching proxy.
+func init() { register("cachedseq", 8, runCachedSeq) }
+
+func runCachedSeq(id string, parts []string) string {
+	f := hx.Fields(parts)
+	env, err := getEnv(f["cfg"])
+	if err != nil {
+		return "HARNESS-ERROR env: " + strings.ReplaceAll(err.Error(), " ", "_")
+	}
+	defer putEnv(f["cfg"])
+	steps := strings.Split(f["steps"], ";")
+	var key string
+	var out []string
+	for i, s := range steps {
+		p := strings.Split(s, "/")
+		if len(p) != 4 {
+			return "HARNESS-ERROR bad step"
+		}
+		q, err := hx.UnHex(p[2])
+		if err != nil {
+			return "HARNESS-ERROR bad hex"
+		}
+		if i == 0 {
+			key = hx.QuestionKey(q)
+			env.SetBehaviour(key, parseBehaviour(f["up"]))
+		}
+		time.Sleep(time.Duration(hx.MustAtoi(p[3])) * time.Millisecond)
+		resps, st := env.Query(p[0], q, p[1], 9*time.Second, 40*time.Millisecond)
+		r := "-"
+		if st == "ok" && len(resps) == 1 {
+			r = hx.Hex(resps[0])
+		} else if st != "ok" {
+			r = "!" + st
+		} else {
+			r = fmt.Sprintf("!n%d", len(resps))
+		}
+		out = append(out, fmt.Sprintf("r%d=%s", i+1, r))
+	}
+	time.Sleep(400 * time.Millisecond) // let a prefetch reach the upstream
+	ups := env.TakeQueries(key)
+	var us []string
+	for _, u := range ups {
+		w := u.Wire
+		if len(w) >= 2 {
+			w = w[2:]
+		}
+		us = append(us, fmt.Sprintf("%d:%s", u.Upstream, hx.Hex(w)))
+	}
+	return fmt.Sprintf("n=%d %s upq=%s", len(steps), strings.Join(out, " "), strings.Join(orDash(us), "|"))
+}
